@@ -103,7 +103,7 @@ Section Rec.
       + assert (T : Tgt (s_fs s) cs1 d1 n) by (constructor; auto; apply Hn).
         pose proof (Hg n s s1 _ Hn T L E1) as S1.
         assert (Hd : is_dir (s_fs s) d1 = true) by (eapply chain_end_dir; eauto).
-        destruct S1 as (C1 & A1 & L1).
+        destruct S1 as (C1 & A1 & L1 & K1).
         eapply (stays_ok_seq c f0 dr dcs d1 s s1 s' tt); auto; [split; auto|].
         apply IH; auto.
         * apply (A1 dr cs1 d1 []); auto. constructor; auto.
@@ -213,7 +213,7 @@ Section Rec.
       assert (S6d : stays_ok d s5 s6 (@inl unit N tt)) by (eapply stays_ok_below; eauto).
       assert (Hd5 : is_dir (s_fs s5) d = true) by (eapply tgt_dir; eauto).
       eapply (stays_ok_seq c f0 dr dcs d s5 s6 s' tt); [exact Hd5|exact S6d|].
-      destruct S6 as (C6 & A6 & L6).
+      destruct S6 as (C6 & A6 & L6 & K6).
       assert (T6 : Tgt (s_fs s6) cs d x) by (destruct S6d as (? & A6d & _); eapply tgt_step; eauto).
       assert (Hc6 : chain (s_fs s6) dr (cs ++ [x]) d1).
       { apply (A6 dr (cs ++ [x]) d1 []); auto. apply chain_nil. rewrite F5. exact Hd1. }
@@ -249,10 +249,11 @@ Section Rec.
       rewrite bind_run, sys_run in H. cbn [fst snd] in H.
       destruct (sys_symlink c (s_fs s3) tgt (tpath cs x)) as [f4 r4] eqn:E4. cbn [fst snd] in H.
       pose proof (g_symlink c f0 dr dcs _ cs d x _ f4 r4 T3 E4) as G4.
+      pose proof (k_symlink c f0 dr dcs _ cs d x _ f4 r4 T3 E4) as K4.
       destruct (t_symlink c f0 dr dcs _ cs d x _ f4 r4 T3 E4) as (C4 & A4 & P4).
       fold (mk s3 f4) in H.
       assert (S4 : stays d s2 (mk s3 f4)).
-      { destruct (stays_grows c f0 dr dcs d s3 f4 C4 A4 G4) as (X1 & X2 & X3). split; auto. }
+      { destruct (stays_grows c f0 dr dcs d s3 f4 C4 A4 G4 K4) as (X1 & X2 & X3 & X4). split; auto. }
       rewrite bind_run, expect_ok_run in H.
       destruct P4 as [[e ->]|[-> Hc]].
       + injection H as <- <-. apply stays_stays_ok. exact S4.
